@@ -103,6 +103,11 @@ type Driver struct {
 	// GCErrFatal: a GC cycle returning an error is a violation (C11 only; an
 	// error is not a content change)
 	GCErrFatal bool
+	// counters written from client tasks: fixed arrays, never maps (the map
+	// runtime reports to the race detector even from uninstrumented code)
+	cnames  [32]string
+	ccounts [32]int
+	cn      int
 }
 
 func NewDriver(p *Plan) *Driver {
@@ -387,4 +392,27 @@ func (c *countdownCtx) Err() error {
 	}
 	c.left--
 	return nil
+}
+
+// cprobe counts an event from any task (race-detector safe).
+func (d *Driver) cprobe(name string) {
+	for i := 0; i < d.cn; i++ {
+		if d.cnames[i] == name {
+			d.ccounts[i]++
+			return
+		}
+	}
+	if d.cn < len(d.cnames) {
+		d.cnames[d.cn] = name
+		d.ccounts[d.cn] = 1
+		d.cn++
+	}
+}
+
+// mergeProbes folds the task-side counters into Probes (after the run).
+func (d *Driver) mergeProbes() {
+	for i := 0; i < d.cn; i++ {
+		d.Probes[d.cnames[i]] += d.ccounts[i]
+	}
+	d.cn = 0
 }
